@@ -226,7 +226,8 @@ impl Out {
     pub fn write(&self, args: &Args, header: &str, ty: &str, runner: &str) {
         std::fs::create_dir_all(&args.out).unwrap();
         let k = args.shards.max(1);
-        let n = self.cases.len();
+        // --oracle-only: the model is not run; only the implementation-level verdicts count
+        let n = if args.oracle_only { 0 } else { self.cases.len() };
         let per = n.div_ceil(k).max(1);
         let mut shard_files = vec![];
         for s in 0..k {
@@ -251,7 +252,7 @@ impl Out {
             shard_files.push(p);
         }
         let mut keys = BTreeSet::new();
-        for c in &self.cases {
+        for c in self.cases.iter().take(n) {
             if c.nontrivial {
                 keys.insert(c.key.clone());
             }
@@ -259,6 +260,7 @@ impl Out {
         let samples: Vec<_> = self
             .cases
             .iter()
+            .take(n)
             .enumerate()
             .filter(|(i, _)| n <= 6 || i % (n / 6).max(1) == 0)
             .take(8)
@@ -274,7 +276,7 @@ impl Out {
             "oracle_evaluations": self.oracle_evaluations,
             "oracle_failures": self.oracle_failures.iter().map(|(c,w,r)| serde_json::json!({"class":c,"what":w,"replay":r})).collect::<Vec<_>>(),
             "notes": self.notes,
-            "case_json": self.cases.iter().map(|c| c.json.clone()).collect::<Vec<_>>(),
+            "case_json": self.cases.iter().take(n).map(|c| c.json.clone()).collect::<Vec<_>>(),
         });
         std::fs::write(format!("{}/meta.json", args.out), serde_json::to_string(&meta).unwrap()).unwrap();
     }
